@@ -6,6 +6,7 @@ import CkbVerif.Lemmas.Tx
 import CkbVerif.Lemmas.TxMaturity
 import CkbVerif.Lemmas.TxCapacity
 import CkbVerif.Lemmas.TxRules
+import CkbVerif.Lemmas.TxDao
 
 /-!
 C04 — a transaction is accepted iff inputs are live and unspent and all tx rules hold.
@@ -1010,6 +1011,464 @@ theorem pipeline_first_failure (r : RuleResults) :
   · intro h e he; simp [h, he]
   · intro h h2 h3; rw [h, h2]; cases h4 : r.time <;> simp_all
   · intro h h2 h3 h4; rw [h, h2, h3]; cases h5 : r.cap <;> simp_all
+
+/-! ### DAO maximum withdraw (`calculate_maximum_withdraw`, `transaction_maximum_withdraw`) -/
+
+/-- **max_withdraw_some_iff.** closed form of `calculate_maximum_withdraw` after the header look-ups:
+it succeeds iff the deposit block is below the withdrawing block, the cell covers its occupied
+capacity, the deposit accumulated rate is non-zero (else the u128 division panics — never the case
+for a stored header) and the result fits u64; the value is
+`((capacity − occupied) · withdraw_ar / deposit_ar) mod 2^64 + occupied` (`as u64` truncates). -/
+theorem max_withdraw_some_iff (c occ dar war : Nat) (ord : Bool) (w : Nat) :
+    maxWithdraw c (some occ) dar war ord = some w ↔
+      ord = true ∧ occ ≤ c ∧ dar ≠ 0 ∧ w = ((c - occ) * war / dar) % Tx.U64 + occ ∧ w < Tx.U64 := by
+  unfold maxWithdraw safeSub safeAdd
+  cases ord with
+  | false => simp
+  | true =>
+    by_cases h1 : occ ≤ c
+    · by_cases h2 : dar = 0
+      · simp [h1, h2]
+      · by_cases h3 : ((c - occ) * war / dar) % Tx.U64 + occ < Tx.U64
+        · simp only [h1, h2, h3, if_true, if_false, Bool.not_true, Bool.false_eq_true, Option.some.injEq,
+            ne_eq, not_false_eq_true, true_and]
+          constructor
+          · intro h; subst h; exact ⟨rfl, h3⟩
+          · intro h; exact h.1.symm
+        · simp only [h1, h2, h3, if_true, if_false, Bool.not_true, Bool.false_eq_true, ne_eq,
+            not_false_eq_true, true_and]
+          constructor
+          · intro h; cases h
+          · rintro ⟨h4, h5⟩; subst h4; exact absurd h5 h3
+    · simp [h1]
+
+example : maxWithdraw 18200000000 (some 8200000000) 10000000000000000 10000500000000000 true = some 18200500000 := by
+  decide
+
+/-- **max_withdraw_no_mint.** a withdrawal never pays more than the accumulated-rate ratio allows:
+the part above the occupied capacity, times the deposit rate, is at most the counted capacity times
+the withdrawing rate (floor division and the `as u64` truncation can only lose shannons). -/
+theorem max_withdraw_no_mint {c occ dar war : Nat} {ord : Bool} {w : Nat}
+    (h : maxWithdraw c (some occ) dar war ord = some w) :
+    occ ≤ w ∧ (w - occ) * dar ≤ (c - occ) * war := by
+  obtain ⟨_, _, _, h4, _⟩ := (max_withdraw_some_iff c occ dar war ord w).1 h
+  subst h4
+  refine ⟨Nat.le_add_left _ _, ?_⟩
+  rw [Nat.add_sub_cancel]
+  calc ((c - occ) * war / dar) % Tx.U64 * dar ≤ ((c - occ) * war / dar) * dar :=
+        Nat.mul_le_mul_right _ (Nat.mod_le _ _)
+    _ ≤ (c - occ) * war := Nat.div_mul_le_self _ _
+
+/-- **max_withdraw_exact.** the `as u64` domain: whenever the exact quotient is below 2^64 —
+i.e. counted · withdraw_ar < deposit_ar · 2^64 — nothing is truncated and the withdrawal is exactly
+`⌊counted · withdraw_ar / deposit_ar⌋ + occupied`. -/
+theorem max_withdraw_exact {c occ dar war : Nat} {ord : Bool} {w : Nat}
+    (h : maxWithdraw c (some occ) dar war ord = some w) (hd : (c - occ) * war < dar * Tx.U64) :
+    w = (c - occ) * war / dar + occ := by
+  obtain ⟨_, _, _, h4, _⟩ := (max_withdraw_some_iff c occ dar war ord w).1 h
+  rw [h4, Nat.mod_eq_of_lt (Nat.div_lt_of_lt_mul hd)]
+
+/-- **max_withdraw_truncation_witness.** outside that domain the code, as written, truncates: with a
+realistic deposit rate 10^16, a withdrawing rate four times as large and 2^63 counted shannons the
+exact quotient is 2^65 and the withdrawal collapses to the occupied capacity (less than the
+deposit). Not reachable on a chain whose total issuance is below 2^64 / ar-growth; recorded as the
+exact edge of the `as u64` cast. -/
+theorem max_withdraw_truncation_witness :
+    maxWithdraw (8200000000 + 2 ^ 63) (some 8200000000) 10000000000000000 40000000000000000 true
+      = some 8200000000 := by
+  decide
+
+/-- **max_withdraw_same_rate.** withdrawing at the deposit's own accumulated rate returns exactly the capacity -/
+theorem max_withdraw_same_rate (c occ dar : Nat) (h1 : occ ≤ c) (h2 : dar ≠ 0) (h3 : c < Tx.U64) :
+    maxWithdraw c (some occ) dar dar true = some c := by
+  rw [max_withdraw_some_iff]
+  have hp : 0 < dar := Nat.pos_of_ne_zero h2
+  rw [Nat.mul_div_cancel _ hp, Nat.mod_eq_of_lt (by omega)]
+  exact ⟨rfl, h1, h2, by omega, h3⟩
+
+/-- **max_withdraw_ge_capacity.** accumulated rates never decrease along a chain; with
+deposit_ar ≤ withdraw_ar and inside the u64 domain the depositor gets at least the deposit back. -/
+theorem max_withdraw_ge_capacity {c occ dar war : Nat} {ord : Bool} {w : Nat}
+    (h : maxWithdraw c (some occ) dar war ord = some w) (hge : dar ≤ war)
+    (hd : (c - occ) * war < dar * Tx.U64) : c ≤ w := by
+  have hx := max_withdraw_exact h hd
+  obtain ⟨_, h2, h3, _, _⟩ := (max_withdraw_some_iff c occ dar war ord w).1 h
+  have hp : 0 < dar := Nat.pos_of_ne_zero h3
+  have : c - occ ≤ (c - occ) * war / dar := by
+    rw [Nat.le_div_iff_mul_le hp]
+    exact Nat.mul_le_mul_left _ hge
+  omega
+
+/-- **max_withdraw_mono_ratio.** monotone in the accumulated-rate ratio: if
+withdraw_ar / deposit_ar ≤ withdraw_ar' / deposit_ar' (as exact fractions) and the larger one is
+inside the u64 domain, the same cell withdraws at most as much under the first pair. -/
+theorem max_withdraw_mono_ratio {c occ dar war dar' war' : Nat} {ord ord' : Bool} {w w' : Nat}
+    (h : maxWithdraw c (some occ) dar war ord = some w)
+    (h' : maxWithdraw c (some occ) dar' war' ord' = some w')
+    (hr : war * dar' ≤ war' * dar) (hd' : (c - occ) * war' < dar' * Tx.U64) : w ≤ w' := by
+  have hx' := max_withdraw_exact h' hd'
+  obtain ⟨_, _, h3, h4, _⟩ := (max_withdraw_some_iff c occ dar war ord w).1 h
+  obtain ⟨_, _, h3', _, _⟩ := (max_withdraw_some_iff c occ dar' war' ord' w').1 h'
+  have hq : (c - occ) * war / dar ≤ (c - occ) * war' / dar' := by
+    apply div_le_div_of_cross (Nat.pos_of_ne_zero h3) (Nat.pos_of_ne_zero h3')
+    calc (c - occ) * war * dar' = (c - occ) * (war * dar') := Nat.mul_assoc _ _ _
+      _ ≤ (c - occ) * (war' * dar) := Nat.mul_le_mul_left _ hr
+      _ = (c - occ) * war' * dar := (Nat.mul_assoc _ _ _).symm
+  have : ((c - occ) * war / dar) % Tx.U64 ≤ (c - occ) * war / dar := Nat.mod_le _ _
+  omega
+
+/-- **max_withdraw_mono_capacity.** inside the u64 domain a larger deposit (same occupied capacity
+and rates) never withdraws less -/
+theorem max_withdraw_mono_capacity {c c' occ dar war : Nat} {ord ord' : Bool} {w w' : Nat}
+    (h : maxWithdraw c (some occ) dar war ord = some w)
+    (h' : maxWithdraw c' (some occ) dar war ord' = some w')
+    (hc : c ≤ c') (hd' : (c' - occ) * war < dar * Tx.U64) : w ≤ w' := by
+  have hx' := max_withdraw_exact h' hd'
+  obtain ⟨_, _, _, h4, _⟩ := (max_withdraw_some_iff c occ dar war ord w).1 h
+  have hq : (c - occ) * war / dar ≤ (c' - occ) * war / dar :=
+    Nat.div_le_div_right (Nat.mul_le_mul_right _ (by omega))
+  have : ((c - occ) * war / dar) % Tx.U64 ≤ (c - occ) * war / dar := Nat.mod_le _ _
+  omega
+
+example : maxWithdraw 18200000000 (some 8200000000) 10000000000000000 10000500000000000 true = some 18200500000 ∧
+    maxWithdraw 18200000000 (some 8200000000) 10000000000000000 10000600000000000 true = some 18200600000 ∧
+    (18200000000 - 8200000000) * 10000600000000000 < 10000000000000000 * Tx.U64 := by
+  decide
+
+/-- **fee_law.** `DaoCalculator::transaction_fee` for ANY input list (plain, DAO deposit,
+withdrawing, malformed): the fee is defined iff every input's contribution is defined (no
+`DaoError`), the contributions and the output capacities each sum below 2^64, and outputs ≤
+contributions; then fee + outputs = contributions exactly. Generalises `fee_basic_law`. -/
+theorem fee_law (ins : List FeeInput) (outs : List Nat) (hne : ins ≠ []) (f : Nat) :
+    transactionFee ins outs = some f ↔
+      ∃ vs, inputValues ins = some vs ∧ vs.sum < Tx.U64 ∧ outs.sum < Tx.U64 ∧ outs.sum ≤ vs.sum ∧
+        f = vs.sum - outs.sum := by
+  have h0 : (0 : Nat) < Tx.U64 := Nat.two_pow_pos 64
+  unfold transactionFee
+  have hne' : ins.isEmpty = false := by
+    cases ins with
+    | nil => exact absurd rfl hne
+    | cons a b => rfl
+  rw [hne', sumCapsL_closed _ 0 h0]
+  simp only [Bool.false_eq_true, if_false, Nat.zero_add]
+  cases hm : maximumWithdraw 0 ins with
+  | none =>
+    simp only
+    constructor
+    · intro h; cases h
+    · rintro ⟨vs, h1, h2, _⟩
+      have := (maximumWithdraw_some_iff ins 0 h0 vs.sum).2 ⟨vs, h1, by omega, by omega⟩
+      rw [hm] at this; cases this
+  | some mw =>
+    obtain ⟨vs, h1, h2, h3⟩ := (maximumWithdraw_some_iff ins 0 h0 mw).1 hm
+    simp only [Nat.zero_add] at h2 h3
+    subst h3
+    simp only
+    by_cases h4 : outs.sum < Tx.U64
+    · rw [if_pos h4]
+      simp only [safeSub]
+      by_cases h5 : outs.sum ≤ vs.sum
+      · simp only [h5, if_true, Option.some.injEq]
+        constructor
+        · intro h; exact ⟨vs, h1, h2, h4, h5, h.symm⟩
+        · rintro ⟨vs', h1', _, _, _, h6⟩
+          rw [h1] at h1'; cases h1'; exact h6.symm
+      · simp only [h5, if_false]
+        constructor
+        · intro h; cases h
+        · rintro ⟨vs', h1', _, _, h5', _⟩
+          rw [h1] at h1'; cases h1'; exact absurd h5' h5
+    · rw [if_neg h4]
+      simp only
+      constructor
+      · intro h; cases h
+      · rintro ⟨_, _, _, h4', _⟩; exact absurd h4' h4
+
+example : transactionFee [.plain 1000, .withdraw 10000 (some 6100) 10000000000000000 10000500000000000 true] [11000] = some 0 ∧
+    inputValues [.plain 1000, .withdraw 10000 (some 6100) 10000000000000000 10000500000000000 true] = some [1000, 10000] ∧
+    transactionFee [.plain 1000, .malformed] [5] = none := by
+  decide
+
+/-- **fee_conservation.** an accepted fee conserves capacity: outputs + fee = Σ contributions, and a
+withdrawing input contributes no more than its accumulated-rate bound (`max_withdraw_no_mint`) -/
+theorem fee_conservation {ins : List FeeInput} {outs : List Nat} {f : Nat} (hne : ins ≠ [])
+    (h : transactionFee ins outs = some f) :
+    ∃ vs, inputValues ins = some vs ∧ outs.sum + f = vs.sum := by
+  obtain ⟨vs, h1, _, _, h4, h5⟩ := (fee_law ins outs hne f).1 h
+  exact ⟨vs, h1, by omega⟩
+
+/-! ### DAO witness decoding -/
+
+/-- **dao_headers_ok_iff.** the header look-ups of a withdrawing input succeed iff the cell's own
+block (the withdrawing header) is among the header deps and the witness at the input's position is a
+`WitnessArgs` whose `input_type` is an 8-byte index pointing inside the header deps; the deposit
+header is the header dep at that index. Error classes as coded. -/
+theorem dao_headers_ok_iff (hds : List Nat) (info : Option Nat) (w : DaoWitness) (dh wh : Nat) :
+    daoHeaders hds info w = .ok (dh, wh) ↔
+      info = some wh ∧ wh ∈ hds ∧ ∃ k, w = .index k ∧ hds[k]? = some dh := by
+  unfold daoHeaders
+  cases info with
+  | none => simp
+  | some b =>
+    by_cases hb : b ∈ hds
+    · simp only [hb, if_true]
+      cases w with
+      | index k =>
+        cases hk : hds[k]? with
+        | none => simp [hk]
+        | some d =>
+          simp only [hk, Except.ok.injEq, Prod.mk.injEq, Option.some.injEq, DaoWitness.index.injEq,
+            exists_eq_left']
+          constructor
+          · rintro ⟨rfl, rfl⟩; exact ⟨rfl, hb, rfl⟩
+          · rintro ⟨rfl, _, h⟩; exact ⟨h, rfl⟩
+      | _ => simp
+    · simp only [hb, if_false]
+      constructor
+      · intro h; cases h
+      · rintro ⟨h1, h2, _⟩; cases h1; exact absurd h2 hb
+
+example : daoHeaders [7, 9] (some 9) (.index 0) = .ok (7, 9) ∧
+    daoHeaders [7, 9] (some 9) (.index 2) = .error .invalidOutPoint ∧
+    daoHeaders [7, 9] (some 8) (.index 0) = .error .invalidOutPoint ∧
+    daoHeaders [7, 9] (some 9) .badInputType = .error .invalidDaoFormat := by
+  decide
+
+/-- **dao_withdraw_ok_iff.** a withdrawing input contributes `v` iff its header look-ups succeed
+(`dao_headers_ok_iff`), the deposit block is strictly below the withdrawing block, and
+`calculate_maximum_withdraw` on the two headers' accumulated rates gives `v` (`max_withdraw_some_iff`) -/
+theorem dao_withdraw_ok_iff (hds : List Nat) (number ar : Nat → Nat) (info : Option Nat) (w : DaoWitness)
+    (cap : Nat) (occ : Option Nat) (v : Nat) :
+    daoWithdraw hds number ar info w cap occ = .ok (some v) ↔
+      ∃ dh wh, daoHeaders hds info w = .ok (dh, wh) ∧ number dh < number wh ∧
+        maxWithdraw cap occ (ar dh) (ar wh) true = some v := by
+  unfold daoWithdraw
+  cases h : daoHeaders hds info w with
+  | error e => simp
+  | ok p =>
+    obtain ⟨dh, wh⟩ := p
+    by_cases hn : number dh < number wh
+    · simp [hn]
+    · simp [hn]
+
+example : daoWithdraw [7, 9] id (fun n => 10000000000000000 + n * 1000000000000) (some 9) (.index 0) 18200000000 (some 8200000000)
+      = .ok (some 18201998600) ∧
+    daoWithdraw [9, 7] id (fun n => 10000000000000000 + n * 1000000000000) (some 7) (.index 0) 18200000000 (some 8200000000)
+      = .error .invalidOutPoint := by
+  decide
+
+/-! ### Tx-pool admission -/
+
+/-- **fee_rate_fee_bounds.** `FeeRate::fee` never asks for more than rate · weight / 1000, and inside
+u64 it is the exact floor -/
+theorem fee_rate_fee_bounds (rate weight : Nat) :
+    feeRateFee rate weight * FEE_RATE_KW ≤ rate * weight ∧
+      (rate * weight < Since.U64 → feeRateFee rate weight = rate * weight / FEE_RATE_KW) := by
+  unfold feeRateFee Since.satMul
+  by_cases h : rate * weight < Since.U64
+  · simp only [h, if_true, implies_true, and_true]
+    exact Nat.div_mul_le_self _ _
+  · simp only [h, if_false, false_implies, and_true]
+    calc (Since.U64 - 1) / FEE_RATE_KW * FEE_RATE_KW ≤ Since.U64 - 1 := Nat.div_mul_le_self _ _
+      _ ≤ rate * weight := by omega
+
+/-- **pool_admit_ok_iff.** the tx-pool admits a transaction (up to `submit_entry`) iff the
+context-free rules incl. the pool-only ones hold, it is not already pooled, it resolves, its fee is
+defined and at least `min_fee_rate.fee(size)`, maturity / since / capacity hold, the scripts succeed
+within the cycle limit — the DECLARED cycles for a relayed transaction, `max_block_cycles` otherwise —,
+the DAO lock-size rule holds, and declared cycles (if any) equal the consumed cycles. -/
+theorem pool_admit_ok_iff (p : PoolIn) (c f : Nat) :
+    poolAdmit p = .ok c f ↔
+      poolNonContextual p.txVersion p.maxBlockBytes p.tx = .ok ∧ p.inPool = false ∧ p.resolve = none ∧
+      p.fee = some f ∧ feeRateFee p.minFeeRate (sizeInBlock p.tx) ≤ f ∧ p.time = .ok ∧ p.cap = .ok ∧
+      p.cycles ≤ p.declared.getD p.maxBlockCycles ∧ p.scriptCode = 0 ∧ p.dao = none ∧
+      (∀ d, p.declared = some d → d = p.cycles) ∧ c = p.cycles := by
+  unfold poolAdmit checkTxFee
+  cases h1 : poolNonContextual p.txVersion p.maxBlockBytes p.tx <;> simp
+  cases h2 : p.inPool <;> simp
+  cases h3 : p.resolve <;> simp
+  cases h4 : p.fee with
+  | none => simp
+  | some fee =>
+    simp only [Option.some.injEq]
+    by_cases h5 : fee < feeRateFee p.minFeeRate (sizeInBlock p.tx)
+    · simp only [h5, if_true]
+      constructor
+      · intro h; cases h
+      · rintro ⟨rfl, h, _⟩; omega
+    · simp only [h5, if_false]
+      cases h6 : p.time <;> simp
+      cases h7 : p.cap <;> simp
+      cases h8 : p.declared with
+      | none =>
+        simp only [Option.getD_none]
+        by_cases h9 : p.cycles > p.maxBlockCycles
+        · simp only [h9, if_true]
+          constructor
+          · intro h; cases h
+          · intro h; omega
+        · simp only [h9, if_false]
+          by_cases h10 : p.scriptCode = 0
+          · cases h11 : p.dao with
+            | some i => simp [h10]
+            | none =>
+              simp [h10]
+              constructor
+              · rintro ⟨rfl, rfl⟩; exact ⟨rfl, by omega, by omega, rfl⟩
+              · rintro ⟨rfl, _, _, rfl⟩; exact ⟨rfl, rfl⟩
+          · simp [h10]
+      | some d =>
+        simp only [Option.getD_some]
+        by_cases h9 : p.cycles > d
+        · simp only [h9, if_true]
+          constructor
+          · intro h; cases h
+          · intro h; omega
+        · simp only [h9, if_false]
+          by_cases h10 : p.scriptCode = 0
+          · cases h11 : p.dao with
+            | some i => simp [h10]
+            | none =>
+              by_cases h12 : d = p.cycles
+              · simp [h10, h12]
+                constructor
+                · rintro ⟨rfl, rfl⟩; exact ⟨rfl, by omega, rfl⟩
+                · rintro ⟨rfl, _, rfl⟩; exact ⟨rfl, rfl⟩
+              · simp [h10, h12]
+          · simp [h10]
+
+example : poolAdmit ⟨⟨0, [(1, 0)], [], [], [⟨⟨0, 0⟩, none⟩], [0], []⟩, 0, 597000, false, none, some 205, 1000,
+      .ok, .ok, 0, 537, some 537, 70000000, none⟩ = .ok 537 205 ∧
+    poolAdmit ⟨⟨0, [(1, 0)], [], [], [⟨⟨0, 0⟩, none⟩], [0], []⟩, 0, 597000, false, none, some 205, 1000,
+      .ok, .ok, 0, 537, some 538, 70000000, none⟩ = .declaredWrongCycles 538 537 ∧
+    poolAdmit ⟨⟨0, [(1, 0)], [], [], [⟨⟨0, 0⟩, none⟩], [0], []⟩, 0, 597000, false, none, some 205, 1000,
+      .ok, .ok, 0, 537, some 536, 70000000, none⟩ = .exceededMaximumCycles ∧
+    poolAdmit ⟨⟨0, [(1, 0)], [], [], [⟨⟨0, 0⟩, none⟩], [0], []⟩, 0, 597000, false, none, some 204, 1000,
+      .ok, .ok, 0, 537, none, 70000000, none⟩ = .lowFeeRate 205 204 := by
+  decide
+
+/-- **pool_declared_cycles_decision.** for a relayed transaction that passes everything else, the
+three-way outcome of the declared cycles `d` against the consumed cycles: `d` too small → the scripts
+hit the limit (`ExceededMaximumCycles`), `d` too large → `DeclaredWrongCycles`, equal → admitted. -/
+theorem pool_declared_cycles_decision (p : PoolIn) (d fee : Nat)
+    (h1 : poolNonContextual p.txVersion p.maxBlockBytes p.tx = .ok) (h2 : p.inPool = false)
+    (h3 : p.resolve = none) (h4 : p.fee = some fee)
+    (h5 : feeRateFee p.minFeeRate (sizeInBlock p.tx) ≤ fee) (h6 : p.time = .ok) (h7 : p.cap = .ok)
+    (h8 : p.scriptCode = 0) (h9 : p.dao = none) (hd : p.declared = some d) :
+    poolAdmit p =
+      if d < p.cycles then .exceededMaximumCycles
+      else if p.cycles < d then .declaredWrongCycles d p.cycles
+      else .ok p.cycles fee := by
+  unfold poolAdmit checkTxFee
+  have h5' : ¬ fee < feeRateFee p.minFeeRate (sizeInBlock p.tx) := by omega
+  simp only [h1, h2, h3, h4, h5', h6, h7, h8, h9, hd, if_false, Bool.false_eq_true]
+  by_cases ha : d < p.cycles
+  · simp [ha]
+  · by_cases hb : p.cycles < d
+    · have : ¬ p.cycles > d := by omega
+      have hne : d ≠ p.cycles := by omega
+      simp [ha, hb, this, hne]
+    · have : ¬ p.cycles > d := by omega
+      have he : d = p.cycles := by omega
+      simp [ha, hb, this, he]
+
+/-- **pool_admit_implies_block_pipeline.** the pool is at least as strict as block verification at the
+same rule results: whatever the pool admits (declared cycles, if any, within `max_block_cycles` —
+the relayer refuses larger declarations) passes the block pipeline with the same cycles and fee. -/
+theorem pool_admit_implies_block_pipeline (p : PoolIn) (c f : Nat) (h : poolAdmit p = .ok c f)
+    (hdecl : ∀ d, p.declared = some d → d ≤ p.maxBlockCycles) :
+    pipeline ⟨nonContextual p.txVersion p.maxBlockBytes p.tx, p.resolve, p.time, p.cap, p.scriptCode,
+      p.cycles, p.maxBlockCycles, p.fee, p.dao⟩ = .ok (c, f) := by
+  obtain ⟨h1, _, h3, h4, _, h6, h7, h8, h9, h10, h11, h12⟩ := (pool_admit_ok_iff p c f).1 h
+  have hnc : nonContextual p.txVersion p.maxBlockBytes p.tx = .ok := by
+    unfold poolNonContextual at h1
+    cases hn : nonContextual p.txVersion p.maxBlockBytes p.tx <;> simp_all
+  rw [pipeline_accept_iff]
+  refine ⟨hnc, h3, h6, h7, ?_, h9, h4, h10, h12⟩
+  cases hd : p.declared with
+  | none => simpa [hd] using h8
+  | some d =>
+    have := h11 d hd
+    have := hdecl d hd
+    simp only
+    omega
+
+/-! ### Header deps are main-chain blocks -/
+
+/-- **header_deps_ok_iff.** the header-dep loop accepts iff every header dep is, at the commit
+position, in the number → hash index of the chain ending at the last attached block (the tip for the
+pool, the parent of the block under verification) -/
+theorem header_deps_ok_iff (db : Since.HeaderDb) (env : Since.Env) (hds : List Nat) :
+    headerDepsCheck db env hds = .ok () ↔ ∀ h ∈ hds, isMainChain db env.parentOfCommit h = true := by
+  unfold headerDepsCheck
+  induction hds with
+  | nil => simp [checkHeaders]
+  | cons h rest ih =>
+    unfold checkHeaders
+    by_cases hv : isMainChain db env.parentOfCommit h = true
+    · simp [hv, ih]
+    · simp [hv]
+
+/-- **main_chain_unique_at_height.** at most one block per height is a valid header dep: a block of
+a side branch at the height of a main-chain block is refused -/
+theorem main_chain_unique_at_height (db : Since.HeaderDb) (tip h1 h2 : Nat) (d1 d2 : Since.Hdr)
+    (f1 : Since.findHdr db h1 = some d1) (f2 : Since.findHdr db h2 = some d2) (hn : d1.number = d2.number)
+    (m1 : isMainChain db tip h1 = true) (m2 : isMainChain db tip h2 = true) : h1 = h2 := by
+  unfold isMainChain at m1 m2
+  rw [f1] at m1; rw [f2] at m2
+  cases ht : Since.findHdr db tip with
+  | none => simp [ht] at m1
+  | some t =>
+    simp only [ht, beq_iff_eq] at m1 m2
+    rw [hn] at m1
+    rw [m1] at m2
+    exact Option.some.inj m2
+
+/-- **main_chain_tip.** the last attached block itself is a valid header dep (the parent of the
+commit block in block verification: there is no maturity delay for header deps in the code) -/
+theorem main_chain_tip (db : Since.HeaderDb) (tip : Nat) (t : Since.Hdr) (ft : Since.findHdr db tip = some t) :
+    isMainChain db tip tip = true := by
+  unfold isMainChain
+  simp only [ft, beq_iff_eq]
+  unfold chainAt
+  simp [ft]
+
+/-- **main_chain_extends.** header deps stay valid when the chain grows: a block on the chain ending
+at `tip` is on the chain ending at any child of `tip` (what the pool accepted at the tip, the block
+committing it later accepts too) -/
+theorem main_chain_extends (db : Since.HeaderDb) (tip child h : Nat) (t c : Since.Hdr)
+    (ft : Since.findHdr db tip = some t) (fc : Since.findHdr db child = some c)
+    (hp : c.parent = tip) (hn : c.number = t.number + 1)
+    (m : isMainChain db tip h = true) : isMainChain db child h = true := by
+  unfold isMainChain at m ⊢
+  cases fh : Since.findHdr db h with
+  | none => simp [fh] at m
+  | some hd =>
+    simp only [fh, ft, beq_iff_eq] at m
+    simp only [fc, beq_iff_eq]
+    obtain ⟨hd', fh', hnum⟩ := chainAt_some_number m
+    rw [fh] at fh'; cases fh'
+    -- the walk from `tip` can only report heights ≤ t.number
+    have hle : hd.number ≤ t.number := by
+      unfold chainAt at m
+      simp only [ft] at m
+      by_cases e : t.number = hd.number
+      · omega
+      · simp only [e, if_false] at m
+        by_cases e2 : t.number < hd.number
+        · simp [e2] at m
+        · omega
+    unfold chainAt
+    simp only [fc]
+    have e1 : ¬ t.number + 1 = hd.number := by omega
+    have e2 : ¬ t.number + 1 < hd.number := by omega
+    simp only [hn, hp, e1, e2, if_false]
+    exact m
+
+example : isMainChain [⟨1, 0, 0, 0, 0⟩, ⟨2, 1, 0, 10, 1⟩, ⟨3, 2, 0, 20, 2⟩, ⟨4, 2, 0, 21, 2⟩] 3 2 = true ∧
+    isMainChain [⟨1, 0, 0, 0, 0⟩, ⟨2, 1, 0, 10, 1⟩, ⟨3, 2, 0, 20, 2⟩, ⟨4, 2, 0, 21, 2⟩] 3 4 = false ∧
+    isMainChain [⟨1, 0, 0, 0, 0⟩, ⟨2, 1, 0, 10, 1⟩, ⟨3, 2, 0, 20, 2⟩, ⟨4, 2, 0, 21, 2⟩] 2 3 = false := by
+  decide
 
 end Rules
 
